@@ -66,6 +66,7 @@ fn weights(prop: Prop) -> Vec<(AKind, u32)> {
         ],
         Prop::C05 => vec![
             (ChanSession, 30),
+            (ClaimTwiceRound, 6),
             (ChanCreate, 3),
             (ChanUnbind, 2),
             (ChanBind, 2),
@@ -95,6 +96,7 @@ fn weights(prop: Prop) -> Vec<(AKind, u32)> {
             (DiscWaiter, 1),
             (EventRound, 3),
             (ListenerRound, 2),
+            (ClaimTwiceRound, 2),
             (Call, 14),
             (ChanSession, 5),
             (ChanCreate, 4),
@@ -139,8 +141,8 @@ pub fn gen_api_plan(prop: Prop, seed: u64, tier: Tier, index: u64, batch_seed: u
     // fault (cause, point) and the schedule differ.
     let points: u64 = if prop == Prop::C15 {
         match tier {
-            Tier::Quick => 14,
-            Tier::Thorough => 98,
+            Tier::Quick => 16,
+            Tier::Thorough => 112,
         }
     } else {
         1
@@ -153,7 +155,9 @@ pub fn gen_api_plan(prop: Prop, seed: u64, tier: Tier, index: u64, batch_seed: u
         seed
     };
     let mut rng = Rng::new(base_seed ^ 0x6170_6967);
-    let known_avoid = !rng.chance(1, 10);
+    // Double binds of one unbound end used to be kept out of 90 % of the runs (trigger of finding S1,
+    // since fixed); now they are kept out of 10 % only.
+    let known_avoid = rng.chance(1, 10);
     let no_cancel = rng.chance(1, 5);
 
     let n_clients = rng.range(2, if tier == Tier::Thorough { 5 } else { 4 });
@@ -211,7 +215,7 @@ pub fn gen_api_plan(prop: Prop, seed: u64, tier: Tier, index: u64, batch_seed: u
 
     let fault = if prop == Prop::C15 {
         let mut frng = Rng::new(crate::rng::run_seed(seed ^ 0xfa, index));
-        let kind = ["error", "eof", "send_error", "shutdown", "drop_handles", "broker_shutdown", "shutdown_conn"][variant as usize % 7];
+        let kind = ["error", "eof", "send_error", "shutdown", "drop_handles", "broker_shutdown", "shutdown_conn", "broker_shutdown+send_error"][variant as usize % 8];
         json!({"client": frng.below(n_clients), "kind": kind, "frac": frng.below(1001)})
     } else {
         json!({"kind": "none"})
